@@ -24,7 +24,7 @@ def main():
     P = props.PROPS[a.prop]
     t0 = time.time()
     units = P['units_quick'] if a.tier == 'quick' else P.get('units_thorough', P['units_quick'])
-    ev = dict(property_id=a.prop, tier=a.tier, seed=seed, level='proof', wall_s=0.0, violations=0,
+    ev = dict(property_id=a.prop, tier=a.tier, seed=seed, level=P.get('category', 'proof'), wall_s=0.0, violations=0,
               coverage=dict(obligations=0, discharged=0, checker_cmd='', trusted_base=[], samples=[], functions_under_contract=[],
                             units={}, rewrites={}, not_covered=P.get('not_covered', []), explanation=P.get('claim', '')),
               assumptions=list(P.get('assumptions', [])))
@@ -36,6 +36,45 @@ def main():
     known = load_known()
     expected_all = load_expected()
     for uname in units:
+        if uname.startswith('symx:'):
+            from vx import symiso
+            cov = ev['coverage']
+            try:
+                sr = symiso.run()
+            except (AnchorLost, Unsupported) as e:
+                undecided.append(f"{uname}: {type(e).__name__}: {e}")
+                continue
+            names = [o['name'] for o in sr['obligations']]
+            okn = [o['name'] for o in sr['obligations'] if o['ok']]
+            cov['units'][uname] = dict(files=[dict(file='symx_iso.rs', status='pass' if len(okn) == len(names) else 'fail', verified=len(okn), wall_s=round(sr['wall'], 2),
+                                                   backend='symbolic execution: real body compiled by rustc against vx/symx_base.rs + factored polynomial normal form (vx/ring.py); NOT Verus',
+                                                   reason='', errors=[o for o in sr['obligations'] if not o['ok']][:6])], functions=names, table_lengths=sr['lens'])
+            cov['checker_cmd'] = sr['cmd']
+            cov['functions_under_contract'] += [f"{uname}:isogeny::eval_iso", f"{uname}:isogeny::g1::isogeny_map", f"{uname}:isogeny::g2::isogeny_map"]
+            cov['obligations'] += len(names)
+            cov['discharged'] += len(okn)
+            cov['samples'] += [dict(obligation=n, status='discharged') for n in okn[:3]]
+            exp = expected_all.get(uname)
+            if a.record:
+                expected_all[uname] = sorted(okn)
+            elif exp is None:
+                undecided.append(f"{uname}: no recorded expectation")
+            else:
+                for o in sr['obligations']:
+                    if o['ok'] is None:
+                        undecided.append(f"{uname}: {o['name']}: {o.get('note')}")
+                    elif not o['ok']:
+                        base = o['name'].split('[')[0]
+                        if base in exp:
+                            violations.append(dict(unit=uname.replace(':', '_'), obligation=o['name'].replace('::', '_').replace("'", '').replace('[', '_').replace(']', '').replace(' ', ''),
+                                                   errors=[dict(msg='output coordinate differs from the specified rational map', line=0, file='symx_iso.rs', fn=o['name'])],
+                                                   ring=None, symx=o.get('witness')))
+                        else:
+                            undecided.append(f"{uname}: {o['name']} differs but was not established on the pinned tree either")
+                missing = [n for n in exp if n not in [x.split('[')[0] for x in names]]
+                if missing:
+                    undecided.append(f"{uname}: expected obligations missing: {missing}")
+            continue
         if uname.startswith('kani:'):
             from vx import kani
             kr = kani.run(group=uname.split(':', 1)[1])
